@@ -258,6 +258,23 @@ fn check_sealed(run: &Run, ctx: &Ctx, n: &Node) {
     if m.block_txs.values().any(|t| !t.sigs.is_empty() && t.sigs.iter().all(|s| s.is_empty())) {
         run.outcome(if m.rules().tip_908 { "sealed-block-with-empty-signature-slots/dense" } else { "sealed-block-with-empty-signature-slots/sparse" });
     }
+    // the public accessors report exactly what the committed trees hold (a present entry is not reported absent, or the reverse)
+    for (k, p) in m.pools.iter() {
+        let got = s.pool(*k).map(|x| (x.lefts, x.rights, x.price_accum, x.liqs));
+        if got != Some((p.lefts, p.rights, p.price_accum, p.liqs)) {
+            run.violation("C07", "pool-accessor-differs-from-committed-pool".into(), format!("pool({:?}) = {:?} but the pool tree (and the model) hold {:?} on [{}]", k, got, p, n.path_str()), rp.clone());
+        }
+    }
+    for (id, c) in m.coins.iter().take(40) {
+        if s.coin(*id).as_ref() != Some(c) {
+            run.violation("C07", "coin-accessor-differs-from-committed-coin".into(), format!("coin({}) differs from the committed entry on [{}]", id, n.path_str()), rp.clone());
+        }
+    }
+    for (k, d) in m.stakes.iter() {
+        if s.stake(*k).map(|x| (x.pubkey, x.e_start, x.e_post_end, x.syms_staked)) != Some((d.pubkey, d.e_start, d.e_post_end, d.syms_staked)) {
+            run.violation("C07", "stake-accessor-differs-from-committed-stake".into(), format!("stake({}) differs from the committed entry on [{}]", k, n.path_str()), rp.clone());
+        }
+    }
     let tr = tx_root(m);
     if tr != h.transactions_hash.0 {
         run.violation("C07", format!("transactions-root/{}", if m.rules().tip_908 { "dense" } else { "sparse" }), format!("transactions_hash differs from the externally rebuilt commitment on [{}]", n.path_str()), rp.clone());
@@ -506,8 +523,25 @@ pub fn run(run: &Run) {
         scs.push(sc("mainnet-utxo", NetID::Mainnet, 0, base.clone(), 6));
         scs.push(sc("custom02-fees", NetID::Custom02, 65536, base, 6));
     }
+    // a user-created pool that is then emptied (all of its liquidity withdrawn): its entry stays in the pool tree
+    let mut emptied = sc("custom02-user-pool-emptied", NetID::Custom02, 0, pools.clone(), if thorough { 6 } else { 4 });
+    emptied.setup_labels = vec!["open", "mint(", "seal(None)", "open", "deposit[MEL/C", "seal(None)"];
+    emptied.cfg.swaps = false;
+    emptied.cfg.mints = false;
+    emptied.cfg.only_pools = None;
+    scs.push(emptied);
     for sc in &scs {
         let (_w, mut rootn) = root_variant(sc.net, sc.fee_mult, true, sc.genesis);
+        if !sc.setup_labels.is_empty() {
+            let mut setup_cfg = sc.cfg.clone();
+            setup_cfg.mints = true;
+            setup_cfg.deposits = true;
+            if let Some(n) = advance_by_labels(&Run::new("scratch", "quick"), rootn.clone(), &setup_cfg, &sc.setup_labels) {
+                rootn = n;
+            } else {
+                run.outcome("scenario-setup-by-labels-failed");
+            }
+        }
         let scratch = Run::new("scratch", "quick");
         let eng = Engine::new(&scratch);
         for a in &sc.pre {
